@@ -3,3 +3,4 @@ import Amqp.U32
 import Amqp.Gen.SessionKernels
 import Amqp.Gen.CreditKernels
 import Amqp.Session
+import Amqp.Credit
